@@ -9,7 +9,12 @@ use automerge::{Automerge, ReadDoc};
 pub fn compare_with_ref(prop: &str, doc: &Automerge, what: &str, heads_sample: &[Vec<automerge::ChangeHash>], t: &mut Tally) -> CaseResult {
     let changes = catch("get_changes(&[])", || doc.get_changes(&[]))?;
     let rd = RefDoc::new(&changes, doc.text_encoding());
+    let _ = take_stale_marks();
     let o = obs_of(doc, None, what)?.without_spans();
+    if take_stale_marks() > 0 {
+        // marks() (live index) disagrees with the marks carried by spans() (ops): the known stale-index finding
+        return Err(Failure::new(format!("{prop}:current:marks:live-mark-index-stale(reload-agrees-with-the-model)"), format!("{what}: marks() of a text object disagrees with the marks carried by spans() of the same document")));
+    }
     let r = rd.observe(None);
     if let Some((kind, d)) = first_diff(&r, &o) {
         // classifier: does a reload of the same document agree with the model? then the live document's index is stale
